@@ -221,6 +221,7 @@ func (a *batchConn) batchSendLoop(cfg config.TiKVClient) {
 		if a.reqBuilder.len() == 0 {
 			// the conn is closed or recycled.
 			a.inspectPendingRequests(headRecvTime)
+			a.failQueuedRequestsIfClosed()
 			return
 		}
 		select {
@@ -228,6 +229,7 @@ func (a *batchConn) batchSendLoop(cfg config.TiKVClient) {
 			// Entries that are still queued here (e.g. behind the concurrency limit) can never be sent: fail
 			// them instead of going round for ever; async entries have no caller that would cancel them.
 			a.reqBuilder.cancel(errors.New("batchConn closed"))
+			a.failQueuedRequestsIfClosed()
 			return
 		default:
 		}
@@ -332,6 +334,27 @@ func (a *batchConn) getClientAndSend() {
 	}
 	if batch > 0 {
 		a.metrics.batchSize.Observe(float64(batch))
+	}
+}
+
+// failQueuedRequestsIfClosed completes the entries that are still waiting in batchCommandsCh when the
+// send loop exits because the conn was closed: nobody will ever fetch them, and an async entry has no
+// caller that would give up on its own.
+func (a *batchConn) failQueuedRequestsIfClosed() {
+	select {
+	case <-a.closed:
+	default:
+		return
+	}
+	for {
+		select {
+		case entry := <-a.batchCommandsCh:
+			if entry != nil {
+				entry.error(errors.New("batchConn closed"))
+			}
+		default:
+			return
+		}
 	}
 }
 
